@@ -549,7 +549,7 @@ def oracle(kind, res, k):
         return "row %d still exists %s but the object was removed from the session" % (k + 1, p["db"])
     for key, v in p["loaded"].items():
         if v != p["db"][key] or (v is None) != (p["db"][key] is None):
-            return "object %d has %s=%r in the session, the database has %r%s" % (k + 1, key, v, p["db"][key], " (after %s escaped)" % res["error"] if res["error"] else "")
+            return "object %d has %s=%r in the session, the database has %r%s" % (k + 1, key, v, p["db"][key], "")
     return None
 
 
@@ -831,13 +831,15 @@ def run(ctx, deep=False):
         if "div-zero" in v.split(","):
             zhit.add(n)
     for n, (case, k, why, err) in enumerate(pending):
-        key = static_key(case, k)
-        if key is None and n in pg:
-            key = "evaluator-" + sorted(pg[n])[0]
+        key = None
         if err == "zerodiv":
             why += " (ZeroDivisionError escaped from the evaluator after the statement was executed)"
-        if key is None and n in zhit:
-            key = "evaluator-div-zero"
+            if n in zhit:
+                key = "evaluator-div-zero"  # nothing was synchronised: the exception is the cause
+        if key is None:
+            key = static_key(case, k)
+        if key is None and n in pg:
+            key = "evaluator-" + sorted(pg[n])[0]
         ctx.violation(key or "c43-oracle:%s/%s" % (case["kind"], case["mode"]), dict(jsonable(case), obj=k), why)
         if key:
             ctx.count("known-shape=" + key)
